@@ -310,6 +310,34 @@ pub fn gen_c18(sh: &mut Shards, o: &Opts) -> serde_json::Value {
         // small exponents / exponents near 1
         ps.push((x, rng.range(-2.0, 2.0) as f32));
     }
+    // screened sweep of ALL positive normal x for every exponent the library uses (strided in quick): worst per stratum
+    {
+        let (stride, strata) = if o.thorough { (16u32, 512usize) } else { (4099u32, 48usize) };
+        let (lo, hi) = (0x0080_0000u32, 0x7f7f_ffffu32);
+        let per = ((hi - lo) as usize / strata) + 1;
+        for y in lib_exponents() {
+            let mut worst = vec![(-1.0f64, 0f32); strata];
+            let mut b = lo + rng.below(u64::from(stride)) as u32;
+            while b <= hi {
+                let x = f32::from_bits(b);
+                let t = f64::from(x).powf(f64::from(y));
+                if t > 1e-35 && t < 1e35 {
+                    let r = crate::util::guard(|| powf(x, y)).unwrap_or(f32::NAN);
+                    let dev = ((f64::from(r) - t) / t).abs();
+                    let dev = if dev.is_nan() { f64::INFINITY } else { dev };
+                    let s = ((b - lo) as usize / per).min(strata - 1);
+                    if dev > worst[s].0 {
+                        worst[s] = (dev, x);
+                    }
+                }
+                b = match b.checked_add(stride) {
+                    Some(n) => n,
+                    None => break,
+                };
+            }
+            ps.extend(worst.into_iter().filter(|w| w.0 >= 0.0).map(|w| (w.1, y)));
+        }
+    }
     // two-stage screened search for accuracy corners of powf = exp2(y log2 x) (untrusted f64 screen, inputs only):
     // the log2 error depends on the mantissa alone and is amplified by |y|, the exp2 error on the fractional part of the
     // product.  Stage 1 ranks mantissas at y = +-80, stage 2 sweeps y finely for the worst mantissas; the worst go to TLC.
@@ -389,6 +417,30 @@ pub fn gen_c18(sh: &mut Shards, o: &Opts) -> serde_json::Value {
     for _ in 0..(if o.thorough { 5000 } else { 400 }) {
         es.push(10f64.powf(rng.range(89f64.log10(), 38.0)) as f32);
         es.push(-(10f64.powf(rng.range(88f64.log10(), 38.0)) as f32));
+    }
+    // screened sweep of all f32 in [-85, 85] (strided in quick): worst relative deviation per stratum
+    {
+        let stride: u32 = if o.thorough { 8 } else { 1021 };
+        for sign in [0u32, 0x8000_0000] {
+            let top = 85f32.to_bits();
+            let strata = if o.thorough { 2048usize } else { 96 };
+            let per = (top as usize / strata) + 1;
+            let mut worst = vec![(-1.0f64, 0f32); strata];
+            let mut b = rng.below(u64::from(stride)) as u32;
+            while b <= top {
+                let x = f32::from_bits(b | sign);
+                let r = crate::util::guard(|| expf(x)).unwrap_or(f32::NAN);
+                let t = f64::from(x).exp();
+                let dev = ((f64::from(r) - t) / t).abs();
+                let dev = if dev.is_nan() { f64::INFINITY } else { dev };
+                let s = (b as usize / per).min(strata - 1);
+                if dev > worst[s].0 {
+                    worst[s] = (dev, x);
+                }
+                b += stride;
+            }
+            es.extend(worst.into_iter().filter(|w| w.0 >= 0.0).map(|w| w.1));
+        }
     }
     for chunk in es.chunks(96) {
         let mut s = String::from("\"ev\":\"exp\",\"s\":");
